@@ -320,6 +320,48 @@ def run_direct_mode_histories(root, tag, compiler, seed, n_hist, n_req):
             sc.stop(); shutil.rmtree(d, ignore_errors=True)
     return {'requests': reqs, 'hits': hits, 'options_on': optcount, 'fails': fails, 'samples': samples}
 
+# ------------------------------------------------------------------------------------------------ direct mode: path layouts (scripted, run first)
+def run_direct_mode_layouts(root, tag, compiler):
+    """include paths that reach the line markers as relative paths with `..`: a parent-directory include dir with a
+    *shadow* file of the same relative name below the working directory (F-C04-c, fixed), and `link/../h.h` through a
+    symbolic link to a directory elsewhere (F-C04-d).  History: compile, edit the header really included, compile twice;
+    every request compared with a direct compile."""
+    fails = []; reqs = hits = 0; samples = []
+    layouts = {
+        'parent_include_dir_with_shadow': dict(files={'pinc/h2.h': '#define B 41\n', 'src/pinc/h2.h': '#define B 9999\n', 'src/main.c': '#include "h2.h"\nint f(void) { return B; }\n'}, links={}, flags=['-I../pinc'], real='pinc/h2.h'),
+        'parent_include_two_levels': dict(files={'a/b/h2.h': '#define B 41\n', 'src/sub/b/h2.h': '#define B 9999\n', 'src/sub/main.c': '#include "../../a/b/h2.h"\nint f(void) { return B; }\n', 'src/sub/a/b/h2.h': '#define B 77\n'}, links={}, flags=[], real='a/b/h2.h', cwd='src/sub'),
+        'symlink_dir_dotdot': dict(files={'far/h3.h': '#define B 41\n', 'far/deep/x': '', 'src/h3.h': '#define B 9999\n', 'src/main.c': '#include "lnk/../h3.h"\nint f(void) { return B; }\n'}, links={'src/lnk': '../far/deep'}, flags=[], real='far/h3.h'),
+    }
+    for name, L in layouts.items():
+        d = os.path.join(root, 'lay_' + name); shutil.rmtree(d, ignore_errors=True); w = os.path.join(d, 'w')
+        for rel, text in L['files'].items():
+            os.makedirs(os.path.dirname(os.path.join(w, rel)), exist_ok=True); open(os.path.join(w, rel), 'w').write(text)
+        for rel, target in L['links'].items(): os.symlink(target, os.path.join(w, rel))
+        old = time.time() - 3600
+        for rel in L['files']: os.utime(os.path.join(w, rel), (old, old))
+        cwd = os.path.join(w, L.get('cwd', 'src'))
+        sc = Sc(os.path.join(d, 'sc'), f'{tag}{name}'); sc.use_config({'use_preprocessor_cache_mode': True}); sc.start()
+        argv = [compiler, '-O0'] + L['flags'] + ['-c', 'main.c', '-o', 'out.o']; trace = [f'layout {name}: {sorted(L["files"])} links {L["links"]} cwd {L.get("cwd", "src")} argv {argv[1:]}']
+        try:
+            time.sleep(1.1)      # the headers' ctime must be older than the start of the first compile
+            for step in ('first compile', 'edit ' + L['real'], 'repeat'):
+                if step.startswith('edit'):
+                    open(os.path.join(w, L['real']), 'w').write('#define B 42\n'); os.utime(os.path.join(w, L['real']), (old, old)); time.sleep(1.1)
+                out = os.path.join(cwd, 'out.o')
+                if os.path.exists(out): os.remove(out)
+                b = counts(sc.stats() or {})
+                r = sc.compile(argv, cwd); got = (r.returncode, r.stdout, r.stderr, file_state(out) and file_state(out)[0])
+                a = counts(sc.stats() or {}); cls = 'hit' if a.get('cache_hits', 0) > b.get('cache_hits', 0) else 'miss'; hits += cls == 'hit'
+                if os.path.exists(out): os.remove(out)
+                dr = subprocess.run(argv, cwd=cwd, capture_output=True); want = (dr.returncode, dr.stdout, dr.stderr, file_state(out) and file_state(out)[0])
+                reqs += 1; trace.append(f'{step} -> rc={got[0]} {cls}')
+                if got != want:
+                    fails.append({'kind': 'direct_mode_stale_result', 'detail': f'layout {name}: [{step}] result differs from the direct compile ({cls})', 'ops': list(trace)}); break
+            samples.append(' ; '.join(trace))
+        finally:
+            sc.stop(); shutil.rmtree(d, ignore_errors=True)
+    return {'requests': reqs, 'hits': hits, 'layouts': len(layouts), 'fails': fails, 'samples': samples[:1]}
+
 # ------------------------------------------------------------------------------------------------ scripted corpus histories (run first)
 def _set(attr, val):
     def f(w): setattr(w, attr, val)
